@@ -440,6 +440,16 @@ def run(c):
     if rc != 0 or "{" not in out:
         raise vlib.BuildError("translator c19_tables failed: " + out[-3000:])
     gen = json.loads(out[out.index("{"):])
+    if gen["voidSymbol"] is None or gen["kModifierMask"] is None or not gen["byval"] or not gen["byname"]:
+        # the tables could not be extracted at all (shape of key_table.cc not understood): the Gen file
+        # was written fail-closed, nothing can be generated from it -> undischarged obligation
+        audit = vlib.lean_audit("C19")
+        c.report("C19:translator", "key tables of src/rime/key_table.cc could not be extracted: %s" % "; ".join(gen["problems"])[:600],
+                 {"kind": "proof", "broken": "translator gen/c19_tables.py", "problems": gen["problems"]}, no_input=True)
+        c.cov = vlib.proof_cov(audit, "lake build RimeModel.Props.C19", vlib.STD_TRUSTED)
+        c.cov.update({"evaluations": 0, "distinct_nontrivial": 0, "rule": "translator failed; nothing run", "samples": [],
+                      "translator": {"ok": gen["ok"], "problems": gen["problems"]}})
+        return
     T = Tables(gen)
     # P
     audit = vlib.lean_audit("C19")
